@@ -138,6 +138,9 @@ static void readback(const char *op, int k, spif_list_t l, const seq_t *s)
         CX_DG(f == NULL);
         CX_CHECK(cx_id2(f) == (want >= 0 ? labels[i] : CX_NULLID) && f != probe, op, k, "find-readback", "find(%s) gives %s, expected %s; model %s",
                  cx_lab2s(labels[i]), f == probe ? "the probe itself" : cx_lab2s(cx_id2(f)), want >= 0 ? cx_lab2s(labels[i]) : "NULL", show_seq(s));
+        /* which of several equal elements: the first one, the one index() names (remove() takes that one out, too) */
+        if (f && ix >= 0) CX_CHECK(f == SPIF_LIST_GET(l, ix), op, k, "find-identity", "find(%s) returned an equal element other than the first one (the one at index %ld); model %s",
+                                   cx_lab2s(labels[i]), (long) ix, show_seq(s));
         has = SPIF_LIST_CONTAINS(l, probe);
         CX_DG(has);
         CX_CHECK(!!has == (want >= 0), op, k, "contains-readback", "contains(%s) is %d, expected %d; model %s", cx_lab2s(labels[i]), (int) has, want >= 0, show_seq(s));
